@@ -4,7 +4,7 @@ CONSTANTS
   MaxFault = 2
   Amounts = {4000, 5000, 150000, 199000, 200000, 201000, 799000, 800000, 801000, 1000000, 2500000, 20000000, 50000000}
   PayKinds = {"ok", "okay", "leak", "unknown", "wrongamt", "hold_settle", "hold_cancel", "underpaid"}
-  FaultKinds = {"net", "linkAB", "linkBC", "discAB", "discBC", "cutAB", "cutBC"}
+  FaultKinds = {"net", "linkAB", "linkBC", "discAB", "discBC", "cutAB", "cutBC", "lostAB", "lostBC"}
   PayAts = {0, 0, 0, 12, 40, 90}
   HoldAts = {0, 30, 80}
   FaultAts = {6, 12, 20, 30, 45, 60, 80, 110, 150}
